@@ -779,11 +779,7 @@ func TestVerifC20Raw(t *testing.T) {
 					}
 				}
 				bad++
-				cause := ""
-				if strings.Contains(note, "closed pipe") {
-					cause = "sink-closed-by-compressor-Close"
-				}
-				out.Put(map[string]any{"enc": enc, "items": sq.Items, "what": what, "note": note, "repro": repro, "cause": cause})
+				out.Put(map[string]any{"enc": enc, "items": sq.Items, "what": what, "note": note, "repro": repro})
 			}
 		}
 	}
@@ -818,27 +814,15 @@ func TestVerifC20Seq(t *testing.T) {
 		Statuses []int    `json:"statuses"`
 		Repro    int      `json:"repro"`
 		Seed     uint64   `json:"seed"`
-		Cause    string   `json:"cause,omitempty"`
 	}
 	runSeq := func(enc string, sq *xcSeq, sseed uint64, counting bool) *miss {
 		r := rand.New(rand.NewPCG(sseed, 31))
 		var earlier []string
 		var statuses []int
-		excessive := false
 		// isolate the sequence from what earlier sequences left in the server's pools: two valid
 		// messages whose outcome is not judged
 		for k := 0; k < 2; k++ {
 			srv.post(fmt.Sprintf("c20seq/%s/%d/pre%d", enc, sseed, k), enc, enc, -1, xcCompress(enc, xcMust(proto.Marshal(xcRequestMsg(tok["a"])))))
-		}
-		cause := func() string {
-			trail := excessive
-			for _, k := range earlier {
-				trail = trail || k == "trail"
-			}
-			if enc == "br" && trail {
-				return "brotli-reset-keeps-buffered-input"
-			}
-			return ""
 		}
 		for i, m := range sq.Msgs {
 			data := tok[m.P]
@@ -896,13 +880,12 @@ func TestVerifC20Seq(t *testing.T) {
 					}
 				}
 				if note != "" {
-					return &miss{Enc: enc, Seq: sq.Msgs, At: i, Msg: m, Status: rep.Status, Note: note, Earlier: earlier, Statuses: statuses, Seed: sseed, Cause: cause()}
+					return &miss{Enc: enc, Seq: sq.Msgs, At: i, Msg: m, Status: rep.Status, Note: note, Earlier: earlier, Statuses: statuses, Seed: sseed}
 				}
 			} else if rep.Err != "" {
 				return &miss{Enc: enc, Seq: sq.Msgs, At: i, Msg: m, Status: 0, Note: "no reply to a malformed message: " + rep.Err, Earlier: earlier, Statuses: statuses, Seed: sseed}
 			}
 			earlier = append(earlier, m.K)
-			excessive = excessive || bytes.Contains(rep.Body, []byte("excessive input"))
 		}
 		return nil
 	}
